@@ -302,6 +302,20 @@ fn const_json<'tcx>(tcx: TyCtxt<'tcx>, caller: DefId, c: &ConstOperand<'tcx>, w:
                 w.knum("bits", size.bits() as i128);
             }
         }
+        ty::Adt(adt_def, _) if adt_def.is_enum() && adt_def.is_payloadfree() => {
+            // a named constant of a field-less enum (`const READ: Ordering = Ordering::Acquire`): its variant
+            let env = ty::TypingEnv::post_analysis(tcx, caller);
+            if let Some(si) = c.const_.try_eval_scalar_int(tcx, env) {
+                let size = si.size();
+                let bits = si.to_bits(size);
+                for (vi, d) in adt_def.discriminants(tcx) {
+                    let mask = if size.bits() >= 128 { u128::MAX } else { (1u128 << size.bits()) - 1 };
+                    if (d.val & mask) == bits {
+                        w.kstr("variant", adt_def.variant(vi).name.as_str());
+                    }
+                }
+            }
+        }
         _ => {}
     }
     if let Const::Unevaluated(uv, _) = c.const_ {
